@@ -112,6 +112,8 @@ def check_angular(ctx, lat, lon, kind, terms=None):
     key = {"lat": [float(x) for x in lat], "lon": [float(x) for x in lon]}
     ctx.count(key, nontrivial=n >= 2)
     ctx.stat("angular:" + kind)
+    ctx.sample({"n": n, "coords": kind, "lat": key["lat"][:4],
+                "lon": key["lon"][:4]})
     g = GeoGrid(np.arange(2), lat, lon, silence_level=3)
     where = "GeoGrid.angular_distance"
     try:
